@@ -394,6 +394,54 @@ def proxyLoop (ops : Ops) (reqHeader : Header) : Nat → Header → List Fwd
   | fails + 1, cur =>
     fwdOf (attemptHeader ops reqHeader cur) :: proxyLoop ops reqHeader fails (attemptHeader ops reqHeader cur)
 
+/-! ### the FastCGI transport (reverseproxy/fastcgi/fastcgi.go `buildEnv`, what php_fastcgi configures):
+what the application is told about the client -/
+
+/-- `strings.Replace(s, string(c), "", 1)` -/
+def removeFirst (c : UInt8) : Bytes → Bytes
+  | [] => []
+  | b :: rest => if b = c then rest else b :: removeFirst c rest
+
+/-- "Separate remote IP and port; more lenient than net.SplitHostPort" + "Remove [] from IPv6 addresses":
+    `(REMOTE_ADDR, REMOTE_PORT)` -/
+def fcgiRemote (remote : Bytes) : Bytes × Bytes :=
+  match lastIndexByte colon remote with
+  | some i => (removeFirst rbr (removeFirst lbr (remote.take i)), remote.drop (i + 1))
+  | none => (removeFirst rbr (removeFirst lbr remote), [])
+
+/-- `headerNameReplacer.Replace(strings.ToUpper(field))`: ' ' and '-' become '_' -/
+def envName (field : Bytes) : Bytes := (asciiUpper field).map (fun c => if c = 32 || c = 45 then 95 else c)
+
+def envXFF : Bytes := envName kXFF
+def envXFP : Bytes := envName kXFP
+def envXFH : Bytes := envName kXFH
+
+/-- `for field, val := range r.Header { env["HTTP_"+name] = strings.Join(val, ", ") }`: every field whose
+    CGI name is `name` writes the variable, Go's map order decides which one writes last — the values the
+    variable CAN take, in header order (`[]` = the variable is not set) -/
+def envCandidates (h : Header) (name : Bytes) : List Bytes :=
+  (h.filter (fun e => envName e.1 = name)).map
+    (fun e => joinWith commaSpace (match e.2 with | some vs => vs | none => []))
+
+/-- what the FastCGI application can be told -/
+structure FcgiEnv where
+  remoteAddr : Bytes
+  remotePort : Bytes
+  xff : List Bytes         -- possible values of HTTP_X_FORWARDED_FOR
+  xfp : List Bytes
+  xfh : List Bytes
+deriving DecidableEq, Repr
+
+def fcgiEnvOf (c : Conn) (h : Header) : FcgiEnv :=
+  ⟨(fcgiRemote c.remoteAddr).1, (fcgiRemote c.remoteAddr).2,
+   envCandidates h envXFF, envCandidates h envXFP, envCandidates h envXFH⟩
+
+/-- one request through reverse_proxy with the fastcgi transport; `none` = `prepareRequest` failed -/
+def serveFcgi (N : Net Addr Prefix) (cfg : Cfg Prefix) (c : Conn) (wire : List (Bytes × Bytes)) (ops : Ops) :
+    Option FcgiEnv :=
+  (prepareRequest N cfg c (determineTrustedProxy N cfg c (fromWire wire)).1
+      (applyOmit cfg (fromWire wire))).map (fun h => fcgiEnvOf c (attemptHeader ops h h))
+
 /-- one request whose first `fails` upstream round trips fail: what every attempt sends;
     `none` = `prepareRequest` returned an error (500, no attempt) -/
 def serveAttempts (N : Net Addr Prefix) (cfg : Cfg Prefix) (c : Conn) (wire : List (Bytes × Bytes))
@@ -435,9 +483,6 @@ It runs before any HTTP code and decides what `RemoteAddr` IS: listenerwrapper.g
 inductive PPolicy where
   | ignore | use | reject | require | skip
 deriving DecidableEq, Repr
-
-/-- `strings.ToUpper` on ASCII -/
-def asciiUpper (s : Bytes) : Bytes := s.map (fun c => if 97 ≤ c && c ≤ 122 then c - 32 else c)
 
 /-- policy.go `parsePolicy` (`UnmarshalText`): `policyMapRev[strings.ToUpper(name)]`; `none` = "invalid policy" -/
 def parsePolicy (name : Bytes) : Option PPolicy :=
